@@ -509,6 +509,12 @@ func convertStringToTv(schemaType *sdcpb.SchemaLeafType, v string, ts uint64) (*
 			Timestamp: ts,
 			Value:     &sdcpb.TypedValue_StringVal{StringVal: v},
 		}, nil
+	case "bits", "binary":
+		// carried as strings (the names of the set bits / the base64 encoded data)
+		return &sdcpb.TypedValue{
+			Timestamp: ts,
+			Value:     &sdcpb.TypedValue_StringVal{StringVal: v},
+		}, nil
 	case "": // presence ?
 		return &sdcpb.TypedValue{}, nil
 	}
